@@ -1,7 +1,7 @@
 //! Limb multiplication
 
 use crate::{
-    Checked, CheckedMul, Limb, Wrapping, Zero,
+    Checked, CheckedMul, ConstChoice, Limb, Word, Wrapping, Zero,
     primitives::{mac, mul_wide},
 };
 use core::ops::{Mul, MulAssign};
@@ -19,7 +19,9 @@ impl Limb {
     /// Perform saturating multiplication.
     #[inline(always)]
     pub const fn saturating_mul(&self, rhs: Self) -> Self {
-        Limb(self.0.saturating_mul(rhs.0))
+        // `Word::saturating_mul` branches on the overflow flag; select in constant time instead.
+        let (lo, hi) = mul_wide(self.0, rhs.0);
+        Limb(ConstChoice::from_word_nonzero(hi).select_word(lo, Word::MAX))
     }
 
     /// Perform wrapping multiplication, discarding overflow.
